@@ -110,7 +110,16 @@ def mk_frame(fr):
     if kind == 'jpgcross':    # encoding of the other colour model than the declared format
         src = pix[:, :, 0] if pix.ndim == 3 else np.stack([pix, pix, pix], -1)
         src = np.ascontiguousarray(src)
-    jpg = ref = cv2.imencode('.jpg', src)[1].tobytes()
+    jpg = ref = cv2.imencode('.jpg', src)[1].tobytes() + bytes.fromhex(fr.get('pad', ''))     # pad: bytes after the EOI marker (MJPEG chunks padded to even size; every decoder accepts them)
+    if kind == 'jpgpadrw':
+        # what a consumer does with a received JPEG frame before it forwards it: draw on it through the documented `frame.rw.image[...] = ...` idiom.
+        # The frame that goes out shows the NEW pixels, whatever encoding the original carried
+        f = Frame.from_jpg(jpg, data, fr['h'], fr['w'], fmt)
+        if fr.get('dec'): f.image
+        g = f.rw
+        new = 255 - np.array(f.image, copy=True)
+        g.image[...] = new
+        return g, new, None
     if fr.get('blobtype') == 'bytearray': jpg = bytearray(jpg)
     elif fr.get('blobtype') == 'memoryview': jpg = memoryview(jpg)
     if kind == 'blobnodims':
@@ -445,7 +454,7 @@ def gen_data(rng):
 
 
 def gen_frame(rng, topic):
-    kind = rng.choice(['none', 'none', 'raw', 'raw', 'raw', 'raw', 'ro', 'rocached', 'rwjpg', 'jpgonly', 'jpgonly', 'jpgdec', 'blobnodims', 'png', 'jpgcross'])
+    kind = rng.choice(['none', 'none', 'raw', 'raw', 'raw', 'raw', 'ro', 'rocached', 'rwjpg', 'jpgonly', 'jpgonly', 'jpgdec', 'blobnodims', 'png', 'jpgcross', 'jpgpadrw'])
     fr = {'topic': topic, 'kind': kind, 'data': gen_data(rng)}
     if kind == 'none':
         fr['ctor'] = rng.choice(['dict', 'pos'])
@@ -458,6 +467,8 @@ def gen_frame(rng, topic):
         if fr['fmt'] == 'GRAY' and rng.random() < 0.3: fr['ctor'] = 'nofmt'
     if kind in ('jpgonly', 'jpgdec', 'jpgcross', 'blobnodims'):
         fr['blobtype'] = rng.choice(['bytes', 'bytes', 'bytearray', 'memoryview'])
+    if kind in ('jpgonly', 'jpgdec', 'jpgpadrw') and rng.random() < (0.6 if kind == 'jpgpadrw' else 0.15): fr['pad'] = rng.choice(['00', '0000', 'ff', '00ffd9'])
+    if kind == 'jpgpadrw': fr['dec'] = rng.random() < 0.5; fr['tex'] = rng.choice(['smooth', 'flat'])
     return fr
 
 
